@@ -230,9 +230,14 @@ fn parse_schedule() -> Vec<Step> {
         Some(p) => p,
         None => return out,
     };
-    let text = std::fs::read_to_string(p).expect("read ZX_SCHEDULE");
-    for line in text.lines() {
-        let w: Vec<&str> = line.split_whitespace().collect();
+    // paths in the schedule may be arbitrary bytes (file names that are not valid UTF-8)
+    use std::os::unix::ffi::OsStrExt;
+    let bytes = std::fs::read(p).expect("read ZX_SCHEDULE");
+    for raw in bytes.split(|b| *b == b'\n') {
+        let toks: Vec<&[u8]> = raw.split(|b| *b == b' ' || *b == b'\t').filter(|t| !t.is_empty()).collect();
+        let lossy: Vec<String> = toks.iter().map(|t| String::from_utf8_lossy(t).to_string()).collect();
+        let w: Vec<&str> = lossy.iter().map(|x| x.as_str()).collect();
+        let path_at = |i: usize| PathBuf::from(std::ffi::OsStr::from_bytes(toks[i]));
         if w.is_empty() || w[0].starts_with('#') {
             continue;
         }
@@ -253,11 +258,11 @@ fn parse_schedule() -> Vec<Step> {
             "exit" => out.push(Step::Exit(w[1].parse().unwrap(), w[2].parse().unwrap())),
             "exitscript" => out.push(Step::ExitScript(w[2..].join(" "), w[1].parse().unwrap())),
             "signal" => out.push(Step::Signal),
-            "notify" => out.push(Step::Notify(w[1].parse().unwrap(), w[2] == "err", w[3..].iter().map(PathBuf::from).collect())),
+            "notify" => out.push(Step::Notify(w[1].parse().unwrap(), w[2] == "err", (3..w.len()).map(|i| path_at(i)).collect())),
             "crash" => out.push(Step::Crash(w.get(1).map(|x| x.parse().unwrap()).unwrap_or(77))),
             "drain" => out.push(Step::Drain),
-            "write" => out.push(Step::Write(PathBuf::from(w[1]), w[2..].join(" "))),
-            "remove" => out.push(Step::Remove(PathBuf::from(w[1]))),
+            "write" => out.push(Step::Write(path_at(1), w[2..].join(" "))),
+            "remove" => out.push(Step::Remove(path_at(1))),
             "cap" => rt().cap_override = w[1].parse().unwrap(),
             "failspawn" => rt().fail_spawn.push((w[1].parse().unwrap(), w[2..].join(" "))),
             "shortread" => rt().short_read = w[1].parse().unwrap(),
